@@ -995,8 +995,12 @@ async fn process_plan(
                 crate::verif::point_until("run.shutdown.send", command, || {
                     client.0.req_tx.is_closed() && client.1.req_tx.is_closed()
                 });
-                client.0.shutdown().await?;
-                client.1.shutdown().await?;
+                // A compressor thread exits on the first Shutdown it receives, and
+                // several clients share a thread's channel; a closed channel here
+                // means that thread is already done. Thread errors are surfaced
+                // by the join below.
+                client.0.shutdown().await.unwrap_or(());
+                client.1.shutdown().await.unwrap_or(());
             }
             // Unwrap for thread dyn Any panic contents, which isn't easily mapped to a MonorailError
             // because it doesn't impl Error; however, the internals of this handle do, so they
